@@ -258,7 +258,24 @@ func (r *Raft) runFSM() {
 			snapshot(req)
 
 		case <-r.shutdownCh:
-			return
+			// Nobody will apply what is still queued: answer the callers.
+			for {
+				select {
+				case ptr := <-r.fsmMutateCh:
+					switch req := ptr.(type) {
+					case []*commitTuple:
+						for _, ct := range req {
+							if ct.future != nil {
+								ct.future.respond(ErrRaftShutdown)
+							}
+						}
+					case *restoreFuture:
+						req.respond(ErrRaftShutdown)
+					}
+				default:
+					return
+				}
+			}
 		}
 	}
 }
